@@ -198,6 +198,32 @@ def skeleton(fn: ast.AST, cursor_only: bool = False) -> list[str]:
     return [l.rstrip() for l in text.splitlines() if l.strip()]
 
 
+def connection_statements(fn: ast.AST) -> list[str]:
+    """what the function sends to its database connection, in source order: the SQL text of every
+    `.execute / .executemany / .executescript` call (white space normalised; `<dynamic>` when it is not a
+    literal), `COMMIT` for `.commit()`, `ROLLBACK` for `.rollback()`.  The two-writer model (statement
+    granularity) runs exactly this program."""
+    calls: list[tuple[int, int, str]] = []
+    for n in ast.walk(fn):
+        if not (isinstance(n, ast.Call) and isinstance(n.func, ast.Attribute)):
+            continue
+        attr = n.func.attr
+        if attr in ("execute", "executemany", "executescript"):
+            arg = n.args[0] if n.args else None
+            if isinstance(arg, ast.Constant) and isinstance(arg.value, str):
+                text = re.sub(r"\s+", " ", arg.value).strip()
+            else:
+                text = "<dynamic>"
+            calls.append((n.lineno, n.col_offset, text))
+        elif attr == "commit" and not n.args:
+            calls.append((n.lineno, n.col_offset, "COMMIT"))
+        elif attr == "rollback" and not n.args:
+            calls.append((n.lineno, n.col_offset, "ROLLBACK"))
+    # `conn.execute(...)` nested in another call: the inner one runs first; (line, col) of the Call node is the
+    # start of its receiver expression, which orders chained calls correctly
+    return [t for _l, _c, t in sorted(calls, key=lambda x: (x[0], x[1]))]
+
+
 def _class_name_of(tree: ast.Module, local_name: str) -> str | None:
     """`local_name.__name__` for a class imported under `local_name`."""
     for node in ast.walk(tree):
@@ -290,6 +316,14 @@ def generate(notes: list[str]) -> list[str]:
         L.append(f"def {name} : List String := [")
         L += ["  " + lean_str(l) + ("," if i + 1 < len(lines) else "") for i, l in enumerate(lines)]
         L.append("]")
+    f = find_func(trees[SQLITE], "SqliteWorkflowStore", "append_event")
+    stmts = connection_statements(f) if f is not None else ["<missing>"]
+    if not stmts:
+        notes.append("gen/eventlog: SqliteWorkflowStore.append_event sends no statement to a connection")
+        stmts = ["<missing>"]
+    L.append("def sqlAppendStatements : List String := [")
+    L += ["  " + lean_str(l) + ("," if i + 1 < len(stmts) else "") for i, l in enumerate(stmts)]
+    L.append("]")
     f = find_func(trees[API], "_WorkflowAPI", "_stream_events")
     frames = frame_formats(f) if f is not None else ["<missing>"]
     if not frames:
